@@ -12,6 +12,26 @@ from gbsa.report import Run, AnalysisError  # noqa: E402
 from gbsa.model import Repo  # noqa: E402
 
 
+def selftest(pid, repo_dir, R):
+    """Thorough tier: the firing self-test of this property's rules.  Every one-edit variant registered for the property
+    (selftest/mutants.py and the seeded patches) is applied to its own scratch copy of the analysed tree (mkdtemp, removed
+    afterwards) and the check is re-run on the copy: a breaking variant must be reported, a behaviour-preserving one must
+    stay silent.  The outcome is recorded in the evidence; it never changes the verdict about the analysed tree."""
+    import importlib
+    here = os.path.join(os.path.dirname(os.path.dirname(os.path.abspath(__file__))), "selftest")
+    if not os.path.isdir(here):
+        return
+    sys.path.insert(0, here)
+    os.environ["GBSA_REPO"] = repo_dir
+    st = importlib.import_module("run")
+    st.REPO = repo_dir
+    items = st.collect_items(None, [pid])
+    res = st.run_items(items, jobs=int(os.environ.get("GBSA_JOBS", "16")), quiet=True, out=lambda s: print("SELFTEST " + s))
+    R.extra["selftest"] = res
+    print(f"SELFTEST property={pid} variants={res['variants']} fired={res['fired_as_required']} silent={res['silent_as_required']} "
+          f"skipped={len(res['skipped_anchor_absent'])} unexpected={len(res['unexpected'])}")
+
+
 def main():
     ap = argparse.ArgumentParser()
     ap.add_argument("pid")
@@ -38,6 +58,8 @@ def main():
             R.replay_key = spec.get("finding", {}).get("key")
         explanation = mod.run(repo, R)
         R.no_evidence = a.no_evidence
+        if a.tier == "thorough" and not a.no_evidence and not a.replay and not R.findings and not os.environ.get("GBSA_NO_SELFTEST"):
+            selftest(pid, repo.root, R)
         R.scratch_repo = a.repo
         code = R.finish(explanation, exhaustive=getattr(R, "exhaustive", None))
         if a.replay:
